@@ -602,8 +602,9 @@ Record hcase := mkCase {
   k_rsets : list (list Z);            (* per alignment: PS of the original phased calls it spans *)
   k_mav : bool;                       (* false = --no-mav *)
   k_nalts : list Z;                   (* per record: number of ALT alleles *)
-  k_unsel : list nat                  (* samples whose reads the (last) haplotag run must have left without tags
+  k_unsel : list nat;                 (* samples whose reads the (last) haplotag run must have left without tags
                                          (not selected by --sample) *)
+  k_untouched : bool                  (* chromosome not requested by --chromosome: write_unchanged *)
 }.
 Definition sample_calls (t : table) (s : nat) : list call := map (fun r => nth s (v_calls r) dcall) t.
 Definition same_positions (a b : table) : bool := list_eqb (map v_pos a) (map v_pos b).
@@ -641,6 +642,7 @@ Definition l1_prephased (k : hcase) : bool :=
   forallb (fun s => prephased_kept (sample_calls (k_inp k) s) (sample_calls (k_out k) s)) (k_samples k).
 
 Definition l2_run (rl : rule) (k : hcase) : bool :=
+  if k_untouched k then table_eqb (k_inp k) (k_out k) else
   res_table_eqb (haplotagphase_file rl (k_params k) (k_ref k) (k_mav k) (k_inp k) (k_nalts k) (k_reads k)) (k_out k).
 Definition l2_votes (k : hcase) : bool :=
   (length (k_votes k) =? length (k_reads k))%nat &&
@@ -650,6 +652,7 @@ Definition l2_votes (k : hcase) : bool :=
                     end) (k_samples k).
 (* consensus on the implementation's own votes *)
 Definition l2_cons (rl : rule) (k : hcase) : bool :=
+  k_untouched k ||
   (length (k_cst k) =? length (k_reads k))%nat &&
   forallb (fun s => match consensus rl (k_params k) (k_ref k) (sample_view (k_core k) s) (nth s (k_votes k) []) with
                     | Ok st => cstate_eqb st (nth s (k_cst k) ([], []))
